@@ -297,6 +297,14 @@ def y5_history_free(ctx):
         for c, bid, t in calls:
             sess = strip(c.expr(t['args'][1]))
             cfg = render(c.expr(t['args'][0]))
+            mcap = re.fullmatch(r'arg1\.#?(\d+)', cfg)
+            if mcap and c.kind == 'closure':
+                # a value the closure captured: what the function that makes the closure put there
+                for pb in bodies:
+                    for i_ in pb.normal_blocks:
+                        for s_ in pb.blocks[i_]['stmts']:
+                            if s_['k'] == 'assign' and s_['rv'] == 'aggr' and s_.get('adt') == 'closure:' + c.path and int(mcap.group(1)) < len(s_['ops']):
+                                cfg = render(pb.expr(s_['ops'][int(mcap.group(1))]))
             if sess[0] == 'call' and re.search(r'session::Session::new$', sess[1]) and cfg.endswith('.config'):
                 ctx.ok('Y5', '%s: token_infos(self.config, fresh session)' % fn_, 'use-def', site=t['loc'])
             else:
